@@ -5,6 +5,9 @@ VERIF = os.path.dirname(os.path.dirname(os.path.abspath(__file__)))
 ALL = ["C%02d" % i for i in range(1, 21)]
 
 CHECKS = {
+ "C01": dict(engine="S+H", technique="stateless model checking under a cooperative scheduler (preemption-bounded DFS of all interleavings of submitting threads with the real loop on both back-ends, TSan on every schedule) + explicit-state BFS over single-thread submit/cancel/loop/destroy histories",
+   text="All interleavings up to the completed preemption bound of cross-thread runInLoop submissions with loop start, iterations, exit, re-run and destruction are executed on the real epoll and select loops (eventfd, recursive mutex and epoll_wait/select are scheduling points); a closing protocol makes every deadlock a lost wake-up. All single-thread histories up to the depth of runNext/runInLoop/run with callables that spawn, cancel in-batch or exit, cancel(id) and loop passes are compared against exactly-once/never-after-cancel/order/not-dropped oracles.",
+   note="Trusted: scheduler model of recursive mutex/eventfd/epoll readiness (probed on the real kernel objects), TSan/ASan; bounds: <=3 threads, <=8 submissions, preemption bound 2/3, history depth 4/6.", ref="2/C01"),
  "C05": dict(engine="S", technique="stateless model checking of the real code: cooperative scheduler over interposed pthread ops, iterative preemption-bounded DFS of all interleavings, fork per execution; ThreadSanitizer on every explored schedule",
    text="All interleavings (up to the completed preemption/deviation bound) of submit/status/cancel/cleanup scripts with worker progress are executed on the real ThreadPool/WorkThread; every schedule is judged by exactly-once/answer-consistency/pick-order/thread-limit oracles, deadlock = cleanup never returns, and each schedule is also race-checked by TSan. Finds lost wake-ups and check-then-act windows that need one specific preemption.",
    note="Trusted: the scheduler model of mutex/condvar semantics (cond wait = 2 steps, signal chooses a waiter), TSan/ASan, FakeLoop; bounds: <=4 threads, <=3 tasks, preemption bound 2 (quick) / 3 (thorough).", ref="2/C05"),
